@@ -1,6 +1,6 @@
 #!/bin/bash
-# tools/seedimport.sh C09 A   : verify the sub-agent's change myself, then keep it as /verif/seeded/C09-A
-ID=$1; X=$2; SRC=/tmp/seed/${ID}_out/$X; DST=/verif/seeded/$ID-$X
+# tools/seedimport.sh C09 A [D09 = worktree id, default the property id]  : verify the sub-agent's change myself, then keep it as /verif/seeded/C09-A
+ID=$1; X=$2; W=${3:-$1}; SRC=/tmp/seed/${W}_out/$X; DST=/verif/seeded/$ID-$X
 [ -f $SRC/patch.diff ] || { echo "no patch in $SRC"; exit 1; }
 TMP=$(mktemp)
 /verif/tools/seed.py verify $SRC > $TMP 2>/dev/null
